@@ -87,14 +87,18 @@ def enter_sandbox(fallback_base: str):
     Falls back to a uniquely named directory of the same length."""
     global _libc
     try:
-        os.makedirs(CANON, exist_ok=True)
         os.unshare(os.CLONE_NEWNS)
         _libc = ctypes.CDLL(None, use_errno=True)
         MS_REC, MS_PRIVATE = 0x4000, 1 << 18
         if _libc.mount(b"none", b"/", None, MS_REC | MS_PRIVATE, None) != 0:
             raise OSError(ctypes.get_errno(), "make-rprivate")
-        if _libc.mount(b"tmpfs", CANON.encode(), b"tmpfs", 0, b"size=512m") != 0:
+        # The tmpfs goes over /dev/shm itself, not just over CANON: the server globs absolute
+        # paths component by component (pathlib scans "/", "/dev", "/dev/shm", ...), and the host's
+        # /dev/shm changes while campaigns run (other runs, semaphores) - a determinism breaker
+        # that showed up as +-1..3 loop iterations in pathlib._select_from.
+        if _libc.mount(b"tmpfs", b"/dev/shm", b"tmpfs", 0, b"size=512m") != 0:
             raise OSError(ctypes.get_errno(), "mount tmpfs")
+        os.makedirs(CANON, exist_ok=True)
         S.base, S.mode = CANON, "ns"
     except Exception:
         os.makedirs(fallback_base, exist_ok=True)
@@ -448,6 +452,9 @@ class Seams:
 # step clock
 
 
+_HIST = {} if os.environ.get("DST_STEP_HIST") else None  # diagnostic: steps per code object
+
+
 class StepClock:
     TOOL = 4
 
@@ -466,6 +473,9 @@ class StepClock:
     def _start(code, off):
         if S.sim:
             return
+        if _HIST is not None:
+            k = (code.co_filename.rsplit("/", 1)[-1], code.co_name, "S")
+            _HIST[k] = _HIST.get(k, 0) + 1
         S.steps += 1
         if S.steps - S.op_start_steps > S.budget:
             _budget_exceeded()
@@ -474,6 +484,9 @@ class StepClock:
     def _jump(code, off, dest):
         if S.sim:
             return
+        if _HIST is not None:
+            k = (code.co_filename.rsplit("/", 1)[-1], code.co_name, "J")
+            _HIST[k] = _HIST.get(k, 0) + 1
         S.steps += 1
         if S.steps - S.op_start_steps > S.budget:
             _budget_exceeded()
